@@ -1416,6 +1416,9 @@ def eguard(fn, allowed, clause):
     try:
         return guard(fn, allowed=allowed, clause=clause)
     except Violation as v:
+        if '@basic/expr.py:__init__' in v.clause and ':TypeError@' in v.clause:
+            # pharmpy.basic.Expr cannot hold the ITE that substituting a Piecewise into a condition produces
+            raise Violation('crash:expr-ite:TypeError', observed=v.observed, expected=v.expected, detail=f'{clause[len("crash:"):]}: {v.detail}')
         if '@internals/expr/eval.py' in v.clause:
             typ = v.clause.split(':')[-2] if v.clause.count(':') >= 2 else 'error'
             raise Violation('crash:eval_expr:' + v.clause.split('@')[0].rsplit(':', 1)[-1], observed=v.observed, expected=v.expected, detail=f'{clause[len("crash:"):]}: {v.detail}')
